@@ -219,7 +219,7 @@ def run_shard(ctx):
             ctx.stats.classes["subset-family"] += 1
         except Violation as v:
             ctx.stats.violations.append({"signature": v.signature, "detail": v.detail, "case": c})
-    hyp_search(ctx, cases(), lambda c: check_case(c, ctx.stats), ctx.scale(170, 6000))
+    hyp_search(ctx, cases(), lambda c: check_case(c, ctx.stats), ctx.scale(170, 3000))
 
 
 def replay(case):
